@@ -286,7 +286,7 @@ def draw_sensor_block(rng: random.Random, kind: str, coarse: bool, narrow_fov: b
 def network_case(rng: random.Random, *, nsteps=None, step=None, kinds=("optical", "radar", "adv_radar"), n_sensors=None, n_targets=None,
                  coarse=None, narrow_fov=False, decision=None, reward=None, model=None, two_engines_p=0.2, space_sensor_p=0.15,
                  geo_p=0.6, start=None, out_mult=None, estimation=None, noise=None, truth_only=False, background=None,
-                 placed_p=0.85, masks=True, integrator=None, events=None, slow_slew=False, edge_p=0.0) -> dict:
+                 placed_p=0.85, masks=True, integrator=None, events=None, slow_slew=False, edge_p=0.0, cluster_p=0.0) -> dict:
     """A complete small scenario: 1-4 sensors, 1-5 targets placed by inverse geometry."""
     import numpy as np
 
@@ -325,6 +325,14 @@ def network_case(rng: random.Random, *, nsteps=None, step=None, kinds=("optical"
     targets = []
     for j in range(n_targets):
         tid = 10001 + j
+        if targets and rng.random() < cluster_p:
+            # a close companion of the previous target (a few km off, same velocity): both sit in one field of view, so a sensor
+            # tasked to one observes the other serendipitously while another sensor is tasked to it
+            prev = targets[-1]["state"]
+            off = np.array([rng.gauss(0, 1) for _ in range(3)])
+            off = off / np.linalg.norm(off) * rng.choice([0.5, 2.0, 10.0, 40.0])
+            targets.append(eci_target(tid, (np.array(prev["position"]) + off).tolist(), prev["velocity"]))
+            continue
         if ground and rng.random() < placed_p:
             site = rng.choice(ground)
             k = rng.randrange(0, nsteps + 1)
